@@ -142,6 +142,15 @@ def regrid(ctx, rng, xr, utils):
             ndt = int(rng.choice([4, 8, 12, 18, 36, 72]))
             ddt = 360.0 / ndt
             tht = float(rng.choice([0.0, ddt / 2, rng.uniform(0, ddt)])) + ddt * np.arange(ndt)
+            if "gap" not in stored and stored != "dup360" and rng.random() < 0.25:
+                # the target holds exactly the source's direction bins, stored in another order
+                tht = np.sort(th)
+                kind += "+samedirs"
+            u = rng.random()
+            if u < 0.15:
+                tht = np.roll(tht, int(rng.integers(1, len(tht))))
+            elif u < 0.3:
+                tht = tht[::-1].copy()
     maintain = bool(rng.random() < 0.8) or mode == "identity"
     via = str(rng.choice(["interp", "regrid_spec", "dataset"])) if mode != "like" else "interp_like"
     key = "%s|src=%s|coords=%s|nf=%d|nd=%d|lead=%d|m0=%s|via=%s" % (mode if mode != "freq" and mode != "both" else mode + ":" + kind, stored, cd, nf, nd, len(lnames), maintain, via)
@@ -212,7 +221,9 @@ def regrid(ctx, rng, xr, utils):
 
 def rotate(ctx, rng, xr):
     rec = ctx.rec
-    x, stored, lnames = source(rng, xr, exact=True)
+    # direction grids on exactly representable nodes, or not (0.1..350.1, 360/7-degree bins: a whole-bin rotation then
+    # lands within rounding of the nodes, not on them)
+    x, stored, lnames = source(rng, xr, exact=bool(rng.random() < 0.65))
     cd = x.attrs.pop("_coord_dtype")
     T = 1.0
     if cd == "float32":
